@@ -107,7 +107,7 @@ def ueOr (s : State) (r : Req) : Ue :=
   | some u => u
   | none => { supi := r.supi }
 
-theorem create_ok (s : State) (r : Req) (nf : Bytes) (hnf : r.nf = some nf) (hp : hasImsiPrefix r.supi = true) :
+theorem create_ok (s : State) (r : Req) (nf : Bytes) (hnf : r.nf = some nf) (hp : supiAccepted r.supi = true) :
     ∃ (ue' : Ue) (rec1 : Record) (sid : Bytes), (create s r).2.status = 201 ∧ (create s r).1.ues = putUe s.ues ue' ∧
       rec1.usage = toRecUsage r.usages ∧ ue'.records = (ueOr s r).records ++ [rec1] ∧
       ue'.cdr = setSid (ueOr s r).cdr sid (ueOr s r).records.length ∧ ue'.supi = (ueOr s r).supi := by
@@ -116,7 +116,7 @@ theorem create_ok (s : State) (r : Req) (nf : Bytes) (hnf : r.nf = some nf) (hp 
   refine ⟨_, _, _, trivial, rfl, ?_, rfl, rfl, rfl⟩
   simp [appendUsage]
 
-theorem create_rej (s : State) (r : Req) (h : r.nf = none ∨ hasImsiPrefix r.supi = false) :
+theorem create_rej (s : State) (r : Req) (h : r.nf = none ∨ supiAccepted r.supi = false) :
     create s r = (s, { status := 400 }) := by
   unfold create
   rcases h with h | h
@@ -130,7 +130,7 @@ theorem usage_create (guard : SplitGuard) (s : State) (r : Req) (supi : Bytes) (
     List.Perm (usageOf (create s r).1 supi) (usageOf s supi ++ contributed guard s (.create r) supi) ∧
     AllIdxOK (create s r).1 := by
   unfold contributed
-  by_cases hacc : ∃ nf, r.nf = some nf ∧ hasImsiPrefix r.supi = true
+  by_cases hacc : ∃ nf, r.nf = some nf ∧ supiAccepted r.supi = true
   · obtain ⟨nf, hnf, hp⟩ := hacc
     obtain ⟨ue', rec1, sid, hst, hues, hru, hrecs, hcdr, hsup'⟩ := create_ok s r nf hnf hp
     have hsupi : (ueOr s r).supi = r.supi := by
@@ -168,7 +168,7 @@ theorem usage_create (guard : SplitGuard) (s : State) (r : Req) (supi : Bytes) (
       | none => left; rfl
       | some nf =>
         right
-        cases hp : hasImsiPrefix r.supi with
+        cases hp : supiAccepted r.supi with
         | false => rfl
         | true => exact absurd ⟨nf, hnf, hp⟩ hacc
     simp [e, hinv]
